@@ -77,6 +77,18 @@ def gen_case(tape: Tape, tier: str, prof: dict) -> dict:
             "samples_per_run": 1,
         }
     n = len(scn["atoms"])
+    # observables that carry states / operators inside the pickled config, and that cannot be un-permuted
+    # (the config safeguard must then switch reordering off)
+    if tape.bool(prof.get("p_rich_obs", 0.3), "rich_obs") and not (cfg.get("noise") or {}).get("with_leakage"):
+        t_rich = sorted({1.0} | ({0.5} if T % 2 == 0 or True else set()))
+        for k in ("state", "fidelity", "expectation", "entanglement_entropy"):
+            if tape.bool(0.5, f"rich_{k}"):
+                d: dict[str, Any] = {"kind": k, "times": [1.0] if k == "state" else t_rich}
+                if k in ("expectation", "entanglement_entropy"):
+                    d["site"] = tape.int(0, max(0, n - 2), f"site_{k}")
+                if k == "fidelity":
+                    d["bits"] = "".join("r" if tape.bool(0.4, f"fb{i}") else "g" for i in range(n))
+                obs.append(d)
     pk = tape.choice(["identity", "reverse", "random", "real"], "perm_kind") if cfg["optimize"] else "identity"
     perm = list(range(n))
     if pk == "reverse":
